@@ -9,6 +9,9 @@
 (*   <<"tvec", s, d, v>>       shortest_torus_path(s, d, w, h) = v         *)
 (*   <<"mlen", s, d, n>>       shortest_mesh_path_length(s, d) = n         *)
 (*   <<"mvec", s, d, v>>       shortest_mesh_path(s, d) = v                *)
+(*   <<"mlenbig", s, d, n>>    shortest_mesh_path_length far out in the    *)
+(*                             mesh: every number as <<hi, lo>>, meaning   *)
+(*                             hi * 2^30 + lo with 0 <= lo < 2^30          *)
 (*   <<"min",  v, r>>          minimise_xyz(v) = r                         *)
 (*   <<"ldf",  v, start, ww, wh, path>>  longest_dimension_first(v, start, *)
 (*                             ww, wh) = path (ww / wh = 0 for None);      *)
@@ -24,6 +27,22 @@
 (* s, d, v, r are three-axis <<x, y, z>> tuples.                           *)
 (***************************************************************************)
 EXTENDS Hex, TLC, Json, IOUtils
+
+\* Integers beyond TLC's 32 bits, as <<hi, lo>> = hi * 2^30 + lo, 0 <= lo < 2^30 (hi may be negative).
+B30 == 1073741824
+BNorm(hi, lo) == IF lo < 0 THEN <<hi - 1, lo + B30>> ELSE IF lo >= B30 THEN <<hi + 1, lo - B30>> ELSE <<hi, lo>>
+BigOf(n) == BNorm(0, n)
+BAdd(a, b) == BNorm(a[1] + b[1], a[2] + b[2])
+BSub(a, b) == BNorm(a[1] - b[1], a[2] - b[2])
+BIsNeg(a) == a[1] < 0
+BAbs(a) == IF BIsNeg(a) THEN BSub(<<0, 0>>, a) ELSE <<a[1], a[2]>>
+BLess(a, b) == a[1] < b[1] \/ (a[1] = b[1] /\ a[2] < b[2])
+BMax2(a, b) == IF BLess(a, b) THEN b ELSE a
+\* Hex.MeshClosed (shown equal to the breadth-first distance by HexDesign) on such numbers ...
+MeshClosedBig(dx, dy) == IF BIsNeg(dx) = BIsNeg(dy) THEN BMax2(BAbs(dx), BAbs(dy)) ELSE BAdd(BAbs(dx), BAbs(dy))
+\* ... and it IS the same function where both can be evaluated
+ASSUME \A dx, dy \in -6..6 : MeshClosedBig(BigOf(dx), BigOf(dy)) = BigOf(MeshClosed(dx, dy))
+ASSUME BSub(BigOf(5), BigOf(7)) = BigOf(-2) /\ BAdd(<<3, B30 - 1>>, BigOf(1)) = <<4, 0>> /\ BAbs(<<-1, 1>>) = <<0, B30 - 1>>
 
 CONSTANTS MaxW,     \* largest torus dimension appearing in the traces
           MeshN     \* mesh window: offsets within -MeshN..MeshN
@@ -63,6 +82,11 @@ Checks(e) ==
          VectorMinimal |-> Hops(e[4]) = TorusDist(XyzToXy(e[2]), XyzToXy(e[3]), TW, TH)]
     [] e[1] = "mlen" ->
         [LenIsDist |-> e[4] = MeshDist(XyzToXy(e[2]), XyzToXy(e[3]))]
+    [] e[1] = "mlenbig" ->      \* the same far out in the mesh: coordinates and result as <<hi, lo>> (hi * 2^30 + lo)
+        LET S == e[2]  D == e[3]
+            dx == BSub(BSub(D[1], D[3]), BSub(S[1], S[3]))
+            dy == BSub(BSub(D[2], D[3]), BSub(S[2], S[3]))
+        IN [LenIsDist |-> <<e[4][1], e[4][2]>> = MeshClosedBig(dx, dy)]
     [] e[1] = "mvec" ->
         [VectorLands   |-> Land(XyzToXy(e[2]), e[4], 0, 0) = XyzToXy(e[3]),
          VectorMinimal |-> Hops(e[4]) = MeshDist(XyzToXy(e[2]), XyzToXy(e[3]))]
